@@ -160,6 +160,7 @@ type Input struct {
 	RawTo     string        // … as the desired realm (Realm inputs; see rawdocs.go)
 	FilesFrom []HFile       // the current state as SEVERAL HCL files evaluated as one source (files.go)
 	FilesTo   []HFile       // the desired state as several HCL files
+	Flavour   string        // "" | "tidb" | "mariadb": the connected MySQL driver of that flavour instead of Default*
 	Scoped    bool          // plan with an empty schema qualifier (plan scoped to the connected schema)
 	Indent    string        // PlanOptions.Indent
 	Edits     []string      // ids of the edit walk From -> To (documentation only)
